@@ -93,6 +93,23 @@ def h_stage1(sx):
     if "rollup" in checks:
         _check_rollup(sx, w, flags)
 
+    if "autoretry" in checks:
+        # final statuses depend only on the last attempt of each scenario
+        exl = runspec(w, flags)      # world.out() now answers with each scenario's *last* attempt
+        real = w.step_status_table()
+        for e in w.scenario_elems():
+            last = w.attempt.get(e.eid, 1)
+            if any(str(f[3]).split("/")[0] == e.eid and f[4] == last for f in w.fault_fired):
+                continue    # a hook raised in the last attempt itself: covered by C12
+            if any(f[3] is None or f[3] in [a.eid for a in e.ancestors()] for f in w.fault_fired):
+                continue    # run-level / container hook fault: body may legitimately not run
+            sx.check(real[e.eid] == exl.steps[e.eid], "C03.autoretry.last-attempt-decides(steps)",
+                     detail=lambda m, e=e: {"sid": e.eid, "real": real[e.eid], "expected": exl.steps[e.eid],
+                                            "attempts": w.attempt.get(e.eid), "fired": [list(map(str, f)) for f in w.fault_fired]})
+            sx.check(e.obj.status.name != "hook_error", "C03.autoretry.no-stale-hook-error",
+                     detail=lambda m, e=e: {"sid": e.eid, "status": e.obj.status.name, "attempts": w.attempt.get(e.eid),
+                                            "fired": [list(map(str, f)) for f in w.fault_fired]})
+
     obs = w.observable()
     if "rerun" in checks and not faulted:
         # the same model objects run again with a second, independent outcome vector
@@ -132,7 +149,8 @@ def _check_rollup(sx, w, flags, prefix="C03."):
         if not kids:
             continue
         r = e.obj.status
-        hook = bool(getattr(e.obj, "hook_failed", False))
+        # ground truth: did a hook owned by this element raise in its latest run/attempt?
+        hook = any(f[3] == e.eid and f[4] == w.attempt.get(e.eid, 1) for f in w.fault_fired)
         in_r = sp.in_R(kids, kind)
         sx.check(in_r, prefix + "R-covers-reachable(%s)" % kind,
                  detail=lambda m, e=e, kids=kids: {"elem": e.eid, "children": [k.name for k in kids]})
